@@ -112,11 +112,11 @@ def is_op(t, name=None):
 # type and length inference
 # ----------------------------------------------------------------------------
 
-BYTES_OPS = {'CAT', 'SLICE', 'SER', 'HMAC512', 'HMAC', 'SHA256', 'SHA512', 'RIPEMD160', 'PBKDF2',
+BYTES_OPS = {'CAT', 'SLICE', 'SER', 'SER_SIGNED', 'HMAC512', 'HMAC', 'SHA256', 'SHA512', 'RIPEMD160', 'PBKDF2',
              'ENCODE', 'SEC', 'SK_ADD', 'FROMHEX', 'B58DEC', 'B64ENC', 'BYTES', 'REPB'}
 STR_OPS = {'NORM', 'HEX', 'B58ENC', 'BECH32', 'FORMAT', 'STR', 'DECODE', 'JOIN', 'UPPER', 'STRIP', 'BIN', 'ZFILL',
            'STRCAT', 'JSON', 'LOWER'}
-INT_OPS = {'INT', 'ADD', 'SUB', 'MUL', 'MOD', 'FLOORDIV', 'POW', 'LEN', 'SK_ADD_INT', 'INTCAST', 'RANDBITS',
+INT_OPS = {'INT', 'INT_SIGNED', 'ADD', 'SUB', 'MUL', 'MOD', 'FLOORDIV', 'POW', 'LEN', 'SK_ADD_INT', 'INTCAST', 'RANDBITS',
            'LSHIFT', 'RSHIFT', 'BITAND', 'BITOR', 'BITXOR', 'NEG', 'ORD', 'INT2'}
 BOOL_OPS = {'LT', 'EQ', 'NOT', 'AND', 'OR', 'IN', 'IS', 'ISINSTANCE', 'BOOL', 'VALID_SK', 'LE'}
 POINT_OPS = {'PT', 'PT_ADD', 'PARSE_PT', 'PARSE_PT_UNVALIDATED'}
@@ -981,6 +981,8 @@ def is_(a, b):
             return FALSE
         if tag(other) in ('obj', 'cls', 'func', 'bound', 'list', 'tuple', 'dict', 'enum', 'closure'):
             return FALSE
+        if is_op(other, 'WEAKREF') or is_op(other, 'ITER'):
+            return FALSE      # the reference / iterator object itself
         return ('op', 'IS', other, NONE)
     if _all_const(a, b):
         return const(a[1] is b[1] or a[1] == b[1])
